@@ -1,9 +1,11 @@
 #!/bin/bash
-# usage: tools/with_patch.sh <patch.diff> <command...>   -- applies the patch to /repo, runs the command, always reverts
+# usage: tools/with_patch.sh <patch.diff> <command...>
+# Applies the patch to a scratch git worktree of /repo (under /tmp, removed afterwards) and runs the command with VERIF_REPO
+# pointing at it; /repo itself is never touched, evidence goes to a scratch directory.
 set -u
 P="$(readlink -f "$1")"; shift
-git -C /repo diff --quiet || { echo "/repo has uncommitted changes" >&2; exit 9; }
-git -C /repo apply "$P" || { echo "patch does not apply" >&2; exit 9; }
-VERIF_EVIDENCE_DIR="${VERIF_EVIDENCE_DIR:-/tmp/verif-mut-evidence}" "$@"; rc=$?
-git -C /repo checkout -- . 
-exit $rc
+WT="$(mktemp -d /tmp/seedwt-XXXXXX)"; rmdir "$WT"
+git -C /repo worktree add -q --detach "$WT" HEAD || exit 9
+trap 'git -C /repo worktree remove --force "$WT" 2>/dev/null; rm -rf "$WT"' EXIT
+git -C "$WT" apply "$P" || { echo "patch does not apply" >&2; exit 9; }
+VERIF_REPO="$WT" VERIF_EVIDENCE_DIR="${VERIF_EVIDENCE_DIR:-$(mktemp -d /tmp/verif-mut-evidence-XXXXXX)}" "$@"
